@@ -267,6 +267,10 @@ func applyIfExistsConfig(t rel.Tuple, dir string, fs afero.Fs, dryRun bool) (err
 		}
 		return errors.Errorf("%s: '%s' field must exist", ifExistsConfig, dirField)
 	case ifExistsIgnore:
+		if dryRun {
+			// nothing is written, but the description must still be a valid one
+			return applyFilesFields(t, dir, afero.NewMemMapFs(), true)
+		}
 		return nil
 	case ifExistsFail:
 		return errors.Errorf("%s: '%s' exists", ifExistsConfig, dir)
